@@ -466,6 +466,11 @@ def handle (st : St) (cmd : String) (args : List Nat) : St × String :=
         | .crash => "glr crash"
         | .outOfFuel => "glr fuel")
     | _, _, _ => (st, "bad-glr")
+  | "skipidem" =>
+    -- skipidem: hypothesis of C01_glr_model_sound on the current input (layout skipping idempotent)
+    match st.inp with
+    | some inp => (st, if skipIdemB inp then "skipidem 1" else "skipidem 0")
+    | none => (st, "bad-skipidem")
   | "detok" =>
     -- detok: the executable hypotheses of C04_exact_when_deterministic on the current table and input:
     -- <detTableB: every cell at most one action, finish flags per cell, cell terminals distinct>
